@@ -213,17 +213,14 @@ pub fn eval(e: &il::Expression, sc: &Scalars) -> Result<Val, Stuck> {
         E::AShr(a, b) => {
             let (a, b) = (eval(a, sc)?, eval(b, sc)?);
             same(&a, &b, "ashr")?;
-            match b.v.to_usize() {
-                Some(n) if n <= a.bits => {
-                    let shifted = &a.v >> n;
-                    if a.sign() {
-                        let fill = mask(a.bits) ^ mask(a.bits - n);
-                        Val::new(shifted | fill, a.bits)
-                    } else {
-                        Val::new(shifted, a.bits)
-                    }
-                }
-                _ => return Err(Stuck::Undefined("ashr amount > width".into())),
+            // an amount of the width or more leaves only copies of the sign bit
+            let n = b.v.to_usize().map(|n| n.min(a.bits)).unwrap_or(a.bits);
+            let shifted = &a.v >> n;
+            if a.sign() {
+                let fill = mask(a.bits) ^ mask(a.bits - n);
+                Val::new(shifted | fill, a.bits)
+            } else {
+                Val::new(shifted, a.bits)
             }
         }
         E::Cmpeq(a, b) => {
